@@ -17,7 +17,7 @@ pub struct CfgSpec {
     pub oracle: bool,
     pub same_prefix: bool,
     pub stopped: bool,
-    /// 0: batch period 1 day, unbonding period 14 days, one monitor; 1: both periods 0 and no monitor;
+    /// 0: batch period 1 day, unbonding period 14 days, one monitor, two validators; 1: both periods 0, no monitor, no validator;
     /// 2: both periods 1 s and two monitors (a second one that is also an ordinary user)
     pub variant: u8,
 }
@@ -214,7 +214,7 @@ pub fn init_msg(who: &Who, cfg: &CfgSpec, fee_rate: Uint128, min_stake: Uint128)
             account_address_prefix: who.np.clone(),
             validator_address_prefix: who.vp.clone(),
             token_denom: "utia".into(),
-            validators: vec![who.val1.clone(), who.val2.clone()],
+            validators: if cfg.variant == 1 { vec![] } else { vec![who.val1.clone(), who.val2.clone()] },
             unbonding_period: cfg.periods().1,
             staker_address: who.staker.clone(),
             reward_collector_address: who.collector.clone(),
